@@ -36,7 +36,7 @@ def case_json(m, sym_i, with_dda):
         recs = []
         for i in range(m):
             symbolic = i == sym_i
-            _, g = C12.make_record(eng, i, symbolic, 0, 0, C12.dda_at(with_dda, i))
+            _, g = C12.make_record(eng, i, symbolic, 0, 0, C12.dda_at(with_dda, i), scoring_sym=False)
             recs.append(g)
 
         def cex(mm):
